@@ -7,7 +7,7 @@
 EXTENDS Normalize, TLC, Json
 
 L(p, n) == [p |-> p, n |-> n, xs |-> <<>>]
-Leaves == {L("key", 1), L("key", 2), L("older", 10), L("trivial", 0), L("unsat", 0)}
+Leaves == {L("key", 1), L("key", 2), L("older", 10), L("after", 100), L("trivial", 0), L("unsat", 0)}
 T1 == {PThresh(1, <<a>>) : a \in Leaves}
 T2 == {PThresh(k, <<a, c>>) : k \in 0..3, a \in Leaves, c \in Leaves}
 T3 == {PThresh(k, <<a, c, d>>) : k \in 1..3, a \in Leaves, c \in Leaves, d \in Leaves}
@@ -34,6 +34,20 @@ Lemma ==
 \* the entailment algorithm against truth-table implication, on all ordered pairs of a sub-domain
 EntDom == Leaves \cup T1 \cup T2 \cup {x \in N2 : Len(x.xs) = 2 /\ x.xs[2].p # "thresh"}
 EntLemma == P \in T2 \cup Leaves => \A C \in EntDom : EntailsAlg(P, C) = Entails(P, C) /\ EntailsAlg(C, P) = Entails(C, P)
+\* filters: the result agrees with the policy wherever the assignment respects the age / time, and
+\* keeps no lock the age / time does not imply
+Ages == {0, 5, 10, 11, 4194314}
+Times == {0, 99, 100, 500000000, 500000100}
+FilterLemma ==
+  /\ \A age \in Ages : LET R == AtAgeAlg(P, age) IN
+       /\ \A T \in SUBSET (Atoms(P) \cup Atoms(R)) : AgeOK(T, P, age) => (EvalA(R, T) = EvalA(P, T))
+       /\ \A a \in Atoms(R) : a[1] = "older" => RelImplied(a[2], age)
+  /\ \A t \in Times : LET R == AtLockTimeAlg(P, t) IN
+       /\ \A T \in SUBSET (Atoms(P) \cup Atoms(R)) : TimeOK(T, P, t) => (EvalA(R, T) = EvalA(P, T))
+       /\ \A a \in Atoms(R) : a[1] = "after" => AbsImplied(a[2], t)
+\* the key-count algorithm is the fewest signatures exactly when no key is repeated
+MinKeysLemma ==
+  NoRepeatedKey(P) => (IF SatisfiableA(P) THEN MinKeysAlg(P) = MinKeys(P) ELSE MinKeysAlg(P) = -1)
 Count == Cardinality(All)
 ASSUME PrintT(<<"domain", Count>>)
 =============================================================================
